@@ -121,11 +121,17 @@ def run_top(T, x, opts):
     return oracle.outcome(utype.type_transform, x, T, opts)
 
 
+def _address_text(v):
+    """text made from the repr of an object without a value-based repr (str(deque([memoryview(b'')])) names a memory address):
+    differs between two decodes of the same input, not comparable"""
+    return isinstance(v, (str, bytes, bytearray)) and (" at 0x" in v if isinstance(v, str) else b" at 0x" in bytes(v))
+
+
 def _same_out(a, b):
     if a[0] != b[0]:
         return False
     if a[0] == "ok":
-        return oracle.equal(a[1], b[1])
+        return oracle.equal(a[1], b[1]) or (_address_text(a[1]) and _address_text(b[1]))
     return True
 
 
@@ -216,7 +222,7 @@ def judge_case(case):
                               dict(det, exact=exact)))
             elif top[0] == "ok":
                 i = det["accepting"][0]
-                if not oracle.equal(top[1], accs[i][1]):
+                if not oracle.equal(top[1], accs[i][1]) and not (_address_text(top[1]) and _address_text(accs[i][1])):
                     fails.append(("xor/result-differs-from-the-accepting-argument", dict(det, expected=codec.encode(accs[i][1]))))
             # order independence: every permutation gives the same verdict (and value)
             if len(built) <= 3:
@@ -251,7 +257,7 @@ def judge_case(case):
                 cur = r[1]
             if (top[0] == "ok") == failed:
                 fails.append((f"and/{'accepts-although-a-step-fails' if top[0] == 'ok' else 'rejects-although-every-step-succeeds'}", det))
-            elif top[0] == "ok" and not oracle.equal(top[1], cur):
+            elif top[0] == "ok" and not oracle.equal(top[1], cur) and not (_address_text(top[1]) and _address_text(cur)):
                 fails.append(("and/result-differs-from-the-left-fold", dict(det, fold=codec.encode(cur))))
         info["top"] = top[0]
         return dict(info, fails=fails)
